@@ -15,10 +15,14 @@ import (
 type M = map[string]any
 
 type gen struct {
-	r       *rand.Rand
-	schemas M
-	nSchema int
-	sec     []string
+	r          *rand.Rand
+	schemas    M
+	nSchema    int
+	sec        []string
+	compParams M // components.parameters
+	compResps  M // components.responses
+	compBodies M // components.requestBodies
+	sharedResp []string
 }
 
 var primTypes = []M{
@@ -172,7 +176,7 @@ var headerNames = []string{"X-Request-Id", "X-Trace", "X-Count", "X-When", "X-Fl
 
 // Generate returns the JSON text of spec number i for the given seed plus a name.
 func Generate(seed uint64, i int) (name string, text string, config string) {
-	g := &gen{r: rand.New(rand.NewPCG(seed*7919+uint64(i), 0x5eed)), schemas: M{}}
+	g := &gen{r: rand.New(rand.NewPCG(seed*7919+uint64(i), 0x5eed)), schemas: M{}, compParams: M{}, compResps: M{}, compBodies: M{}}
 	r := g.r
 	name = fmt.Sprintf("g_s%d_%02d", seed, i)
 	doc := M{"openapi": "3.0.3", "info": M{"title": name, "version": "1.0.0"}}
@@ -217,6 +221,25 @@ func Generate(seed uint64, i int) (name string, text string, config string) {
 			doc["security"] = reqs
 		}
 	}
+	// shared components referenced from several operations
+	if r.IntN(2) == 0 {
+		for k := 0; k < 1+r.IntN(2); k++ {
+			name := fmt.Sprintf("Problem%d", k)
+			resp := M{"description": "shared " + name}
+			if r.IntN(3) != 0 {
+				resp["content"] = M{"application/json": M{"schema": M{"$ref": g.componentObject(1)}}}
+			}
+			if r.IntN(3) == 0 {
+				resp["headers"] = M{"X-Trace": M{"schema": M{"type": "string"}}}
+			}
+			g.compResps[name] = resp
+			g.sharedResp = append(g.sharedResp, name)
+		}
+	}
+	if r.IntN(2) == 0 {
+		g.compParams["PageParam"] = M{"name": "page", "in": "query", "schema": M{"type": "integer", "format": "int32"}}
+		g.compParams["TraceParam"] = M{"name": "X-Trace", "in": "header", "schema": M{"type": "string"}}
+	}
 	// paths
 	paths := M{}
 	nOps := 1 + r.IntN(6)
@@ -257,13 +280,25 @@ func Generate(seed uint64, i int) (name string, text string, config string) {
 		}
 		seen[shape] = true
 		item := M{}
+		pathLevel := len(vars) > 0 && r.IntN(3) == 0 // declare the path parameters on the path item
+		if pathLevel {
+			var pp []any
+			for _, v := range vars {
+				pp = append(pp, M{"name": v, "in": "path", "required": true, "schema": M{"type": "string"}})
+			}
+			item["parameters"] = pp
+		}
 		nm := 1 + r.IntN(2)
 		for k := 0; k < nm; k++ {
 			m := methods[r.IntN(len(methods))]
 			if _, ok := item[m]; ok {
 				continue
 			}
-			item[m] = g.operation(m, vars)
+			if pathLevel {
+				item[m] = g.operation(m, nil)
+			} else {
+				item[m] = g.operation(m, vars)
+			}
 		}
 		paths[p] = item
 	}
@@ -274,6 +309,15 @@ func Generate(seed uint64, i int) (name string, text string, config string) {
 	}
 	if len(schemes) > 0 {
 		comps["securitySchemes"] = schemes
+	}
+	if len(g.compParams) > 0 {
+		comps["parameters"] = g.compParams
+	}
+	if len(g.compResps) > 0 {
+		comps["responses"] = g.compResps
+	}
+	if len(g.compBodies) > 0 {
+		comps["requestBodies"] = g.compBodies
 	}
 	if len(comps) > 0 {
 		doc["components"] = comps
@@ -296,8 +340,20 @@ func (g *gen) operation(method string, vars []string) M {
 		}
 		params = append(params, M{"name": v, "in": "path", "required": true, "schema": t})
 	}
+	usedPage, usedTrace, reqArray := false, false, false
+	if len(g.compParams) > 0 && r.IntN(2) == 0 {
+		params = append(params, M{"$ref": "#/components/parameters/PageParam"})
+		usedPage = true
+	}
+	if len(g.compParams) > 0 && r.IntN(3) == 0 {
+		params = append(params, M{"$ref": "#/components/parameters/TraceParam"})
+		usedTrace = true
+	}
 	nq := r.IntN(4)
 	for _, qi := range r.Perm(len(queryNames))[:nq] {
+		if usedPage && queryNames[qi] == "page" {
+			continue
+		}
 		var s M
 		if r.IntN(4) == 0 {
 			s = M{"type": "array", "items": g.prim()}
@@ -306,12 +362,19 @@ func (g *gen) operation(method string, vars []string) M {
 		}
 		p := M{"name": queryNames[qi], "in": "query", "schema": s}
 		if r.IntN(3) == 0 {
-			p["required"] = true
+			// dialect: two required array query parameters in one operation do not compile today (qv := twice)
+			if s["type"] != "array" || !reqArray {
+				p["required"] = true
+				reqArray = reqArray || s["type"] == "array"
+			}
 		}
 		params = append(params, p)
 	}
 	nh := r.IntN(3)
 	for _, hi := range r.Perm(len(headerNames))[:nh] {
+		if usedTrace && headerNames[hi] == "X-Trace" {
+			continue
+		}
 		p := M{"name": headerNames[hi], "in": "header", "schema": g.prim()}
 		if r.IntN(3) == 0 {
 			p["required"] = true
@@ -326,11 +389,16 @@ func (g *gen) operation(method string, vars []string) M {
 		case 0:
 		case 1:
 			op["requestBody"] = M{"required": true, "content": M{"application/octet-stream": M{"schema": M{"type": "string", "format": "binary"}}}}
+		case 2:
+			name := fmt.Sprintf("Body%d", len(g.compBodies))
+			g.compBodies[name] = M{"required": true, "content": M{"application/json": M{"schema": M{"$ref": g.componentObject(0)}}}}
+			op["requestBody"] = M{"$ref": "#/components/requestBodies/" + name}
 		default:
 			op["requestBody"] = M{"required": true, "content": M{"application/json": M{"schema": g.bodySchema()}}}
 		}
 	}
 	resps := M{}
+	usedShared := map[string]bool{}
 	codes := []string{"200", "201", "202", "204", "400", "404", "409", "500"}
 	nr := 1 + r.IntN(3)
 	for _, ci := range r.Perm(len(codes))[:nr] {
@@ -349,12 +417,24 @@ func (g *gen) operation(method string, vars []string) M {
 			hs := M{}
 			for _, hi := range r.Perm(len(headerNames))[:1+r.IntN(2)] {
 				h := M{"schema": g.prim()}
+				if r.IntN(4) == 0 {
+					h = M{"schema": M{"type": "array", "items": g.prim()}}
+				}
 				if r.IntN(2) == 0 {
 					h["required"] = true
 				}
 				hs[headerNames[hi]] = h
 			}
 			resp["headers"] = hs
+		}
+		if len(g.sharedResp) > 0 && (c == "400" || c == "404" || c == "409" || c == "500") && r.IntN(2) == 0 {
+			// dialect: goag rejects one component response used for two statuses of the same operation
+			name := g.sharedResp[r.IntN(len(g.sharedResp))]
+			if !usedShared[name] {
+				usedShared[name] = true
+				resps[c] = M{"$ref": "#/components/responses/" + name}
+				continue
+			}
 		}
 		resps[c] = resp
 	}
